@@ -14,6 +14,7 @@ import UberjobModel.Model.ProgressDrv
 import UberjobModel.Model.PhysDrv
 import UberjobModel.Model.ExecDrv
 import UberjobModel.Model.EngineFine
+import UberjobModel.Model.EngineQ
 /-!
   Line-protocol driver for the executable models (one request per line, one reply per line).
   Used by the Python harness for the correspondence checks (T2/T3).
@@ -151,12 +152,58 @@ def cmdFine (rest : String) : String :=
     | _ => "bad-op"
   | _ => "bad-op"
 
+def parseQ (t : String) : Option EngineQ.LabelQ :=
+  match (t.trimAscii.toString.splitOn " ").filter (· ≠ "") with
+  | ["take", w, i] => do some (.getTake (← w.toNat?) (← parseItem i))
+  | ["sleep", w] => do some (.getSleep (← w.toNat?))
+  | "put" :: v :: rest => do
+      let l ← parseLabel rest
+      if v == "-" then some (.put l none) else some (.put l (some (← v.toNat?)))
+  | ["taskDone", w] => do some (.taskDone (← w.toNat?))
+  | ["joinTake"] => some .joinTake
+  | ["joinSleep"] => some .joinSleep
+  | ["interrupt"] => some .interrupt
+  | "b" :: rest => (parseLabel rest).map .base
+  | _ => none
+
+def showCS : EngineQ.CS → String
+  | .awake => "awake"
+  | .asleep => "asleep"
+  | .woken => "woken"
+
+def sortNats (l : List Nat) : List Nat := (l.toArray.qsort (· < ·)).toList
+
+def runQ (g : Engine.Graph) (cfg : Engine.Cfg) : EngineQ.StQ → Nat → List String → String
+  | s, _, [] => "ok " ++ showSt g s.c ++ s!" sleep={sortNats s.sleep} woken={sortNats s.woken} cs={showCS s.cs}"
+  | s, k, t :: ts =>
+    match parseQ t with
+    | none => s!"bad-label {k} {t}"
+    | some l =>
+      match EngineQ.stepQ? g cfg s l with
+      | some s' => runQ g cfg s' (k + 1) ts
+      | none => s!"reject {k} {t} :: {showSt g s.c} sleep={sortNats s.sleep} woken={sortNats s.woken} cs={showCS s.cs}"
+
+/-- `wake W MAXERR|none | n0 n1 ... | u,v u,v ... | label ; label ; ...` (stateless) -/
+def cmdWake (rest : String) : String :=
+  match rest.splitOn "|" with
+  | [hd, ns, es, ls] =>
+    match (hd.trimAscii.toString.splitOn " ").filter (· ≠ "") with
+    | [w, me] =>
+      match w.toNat? with
+      | some w =>
+        let g := Engine.Graph.ofEdges (nats ns) (parseEdges es)
+        runQ g ⟨w, me.toNat?⟩ (EngineQ.initQ g) 0 ((ls.splitOn ";").filter (fun t => t.trimAscii.toString ≠ ""))
+      | none => "bad-op"
+    | _ => "bad-op"
+  | _ => "bad-op"
+
 def step (c : Ctx) (line : String) : Ctx × String :=
   let line := line.trimAscii.toString
   match (line.splitOn " ").filter (· ≠ "") with
   | "engine" :: _ => cmdEngine (line.drop 6).toString
   | "kahn" :: _ => (c, cmdKahn line)
   | "fine" :: _ => (c, cmdFine (line.drop 4).toString)
+  | "wake" :: _ => (c, cmdWake (line.drop 4).toString)
   | "fs" :: _ => (c, Uberjob.FileStore.drv line)
   | "text" :: _ => (c, Uberjob.TextCodec.drv line)
   | "c18" :: _ => (c, Uberjob.Time.drv line)
